@@ -872,6 +872,16 @@ def gen_directed(rng, index):
         op("tp.str_kwargs", [x])
         op("tp.add_tp", [x, p1])
         op("tp.add_tp", [p1, x])
+        # truncated + full with a fractional second does not come back on
+        # the pinned tree (C20 territory): tried in a throw-away fork of
+        # this process, which also inspects every value afterwards -- so a
+        # version of the library that does return is still watched there
+        pfrac = add({"k": "mk", "t": "tp", "parser": "std",
+                     "text": "2000-01-01T05:06:12,5Z"})
+        steps.append({"k": "op", "id": "f1", "m": "tp.add_tp",
+                      "a": [x, pfrac], "s": [], "c": 0, "fork": True})
+        steps.append({"k": "op", "id": "f2", "m": "tp.add_tp",
+                      "a": [pfrac, x], "s": [], "c": 0, "fork": True})
         op("tp.hash_str", [x])
     elif typ in ("dur", "tz"):
         for attr in (TZ_NOARG if typ == "tz" else DUR_NOARG):
@@ -1561,6 +1571,13 @@ class Sim(object):
                     shape_of(o) for o in ops)))
             except Exception:
                 pass
+            if step.get("fork"):
+                self.results.append([step_no, self.probe_in_fork(
+                    step_no, name, ops, step)])
+                self.count("ops")
+                self.count("op." + name)
+                self.sig.append("%d:%s?" % (step.get("c", 0), name))
+                continue
             raised = False
             self.cur_step_id = step["id"]
             try:
@@ -1657,6 +1674,38 @@ class Sim(object):
                              victim=name, mk=step, value_vs_twin=diff)
             del self.made[name]
         self.check_all(step_no, "twins", [], False)
+
+    def probe_in_fork(self, step_no, name, ops, step):
+        """An operation that may never return on this tree: performed in a
+        throw-away fork of this very process (the whole pool comes along,
+        copy on write) under a short alarm.  If it returns, the fork checks
+        every value as after any other step and reports what it found; this
+        process stays as it was either way."""
+        def probe():
+            kernel.CALL_ALARM_S = 3.0
+            first = len(self.violations)
+            raised = False
+            try:
+                with kernel.guarded():
+                    out = canon_plain(self.apply(name, ops, step["s"]))
+            except kernel.Hang:
+                return "HANG", []
+            except Exception as exc:
+                raised = True
+                out = "EXC:%s:%s" % (type(exc).__name__, str(exc)[:120])
+            self.check_all(step_no, name, step["a"], raised)
+            return out, self.violations[first:]
+        try:
+            out, found = kernel.in_fresh_fork(probe, (), timeout=60)
+        except kernel.HarnessError as exc:
+            if "deadline" in str(exc):
+                out, found = "HANG", []
+            else:
+                raise
+        self.count("probe.forked_probe_" + (
+            "hang" if out == "HANG" else "returned"))
+        self.violations.extend(found)
+        return out
 
     def reask(self, step_no, limit, about=None):
         """Observable state includes the answers to questions that take
@@ -1826,8 +1875,10 @@ ASSUMPTIONS = [
     "hash stability) instead",
     "a quarter or more of the runs re-wrap the library's lru_cache tables "
     "with maxsize 0/1/2/8 so that eviction and refill are the common path",
-    "truncated+full additions are restricted to whole-second, hour != 24 "
-    "operands (other shapes do not terminate on this tree: C20 territory)",
+    "truncated+full additions in the run itself are restricted to "
+    "whole-second, hour != 24 operands (other shapes do not terminate on "
+    "this tree: C20 territory); the directed family tries the others in a "
+    "throw-away fork under a 3 s alarm",
     "no exception is injected at arbitrary lines inside an operation: the "
     "property speaks of completed public operations",
     "sampling, not enumeration: a clean batch is evidence, not proof",
